@@ -25,6 +25,7 @@ Example configurations:
 
 
 # system modules
+import re
 from typing import Optional, List
 
 # dznpy modules
@@ -138,7 +139,12 @@ class Builder:
         custom_shell_name = f'{orig_file_basename}{cfg.output_basename_suffix}'
         target_file_basename = custom_shell_name
         namespace = cpp_gen.Namespace(ns_ids=scope_fqn)
-        struct = cpp_gen.Struct(name=custom_shell_name)
+        # the struct is named after the output files, as far as that is a C++ identifier:
+        # a model file may be called my-model.dzn or 2nd.dzn
+        struct_name = re.sub(r'[^0-9A-Za-z_]', '_', custom_shell_name)
+        if struct_name[:1].isdigit():
+            struct_name = f'_{struct_name}'
+        struct = cpp_gen.Struct(name=struct_name)
 
         encapsulee = create_encapsulee(dzn_elements)
 
